@@ -120,3 +120,34 @@ Proof.
     + destruct ((0 <? m) && (m <? zlen (elig times clusters ivs sc sub c))); [lia|now apply zlist_eqb_eq].
     + now apply zlist_eqb_eq.
 Qed.
+
+(* ---------- the route through TemplateModel.save_spikes_subset_waveforms ---------- *)
+Theorem route_spec choose samples templates grid nst :
+  Choose_OK choose -> length samples = length templates -> sortedZ grid -> 1 <= zlen grid -> 1 <= nst ->
+  exists ivs r,
+    chunks_kept grid 20 = Some (flat ivs) /\
+    Kept_Stride grid 20 (stride (zlen grid - 1) 20) ivs /\
+    route choose samples templates grid nst = Some r /\
+    StronglySorted Z.lt r /\
+    (forall i, In i r -> exists c, Eligible samples templates ivs true None c i) /\
+    (forall c, Count_Spec (Some nst) (elig samples templates ivs true None c)
+                          (filter (has_cluster templates c) r)).
+Proof.
+  intros Hch Hlen Hg Hl Hn.
+  destruct (selector_spec choose samples templates grid 20 (Some nst) (unique templates) true None
+              Hch Hlen Hg Hl ltac:(lia)) as (ivs & r & H1 & H2 & H3 & H4 & H5 & H6).
+  exists ivs, r. unfold route, n_chunks_kept_route. replace (nst <=? 0) with false by lia.
+  split; [exact H1|]. split; [exact H2|]. split; [exact H3|]. split; [exact H4|]. split.
+  - intros i Hi. destruct (H5 i Hi) as (c & _ & Hc). now exists c.
+  - intros c. destruct (in_dec Z.eq_dec c templates) as [Hin|Hnin].
+    + apply H6. now apply unique_In.
+    + (* a template without spikes: nothing eligible, nothing returned *)
+      rewrite (elig_unknown samples templates ivs true None c Hnin).
+      assert (Hf : filter (has_cluster templates c) r = []).
+      { destruct (filter (has_cluster templates c) r) as [|i l] eqn:E; [reflexivity|exfalso].
+        assert (Hi : In i (filter (has_cluster templates c) r)) by (rewrite E; now left).
+        apply filter_In in Hi as [_ Hi]. apply has_cluster_iff in Hi as [_ Hi].
+        apply nth_error_In in Hi. contradiction. }
+      rewrite Hf. unfold Count_Spec. cbn [zlen length Z.of_nat].
+      replace ((0 <? nst) && (nst <? 0)) with false by lia. reflexivity.
+Qed.
